@@ -363,6 +363,7 @@ func c13(r *Report) {
 			}
 			r.Decide("flow", "(*M.MultiError).Add flattens a *MultiError argument", ok, "appends the argument's Errors() on the ok edge of the assertion", "Add no longer unwraps nested MultiErrors: nested groups are reported as one combined error", add.Pos())
 		}
+		multiErrorAddAlwaysAppends(r)
 		// the error list is never aliased with another MultiError's list
 		if me := w.Named("", "MultiError"); me != nil {
 			if fo := structField(me, "errs"); fo != nil {
@@ -401,6 +402,29 @@ func c13(r *Report) {
 				}
 			}
 			r.Decide("flow", "M/verify.appendError lists every error of a MultiError", ok, "iterates Errors()", "the verification handler no longer lists the individual errors", ap.Pos())
+			// one entry per error: the message of an entry is the error's own text, whole (an
+			// error whose text has several lines is still one unmet expectation)
+			nMsg, whole := 0, true
+			for _, f := range append([]*ssa.Function{ap}, ap.AnonFuncs...) {
+				for _, in := range instrs(f) {
+					st, isSt := in.(*ssa.Store)
+					if !isSt {
+						continue
+					}
+					fa, isFa := st.Addr.(*ssa.FieldAddr)
+					if !isFa || fieldObj(fa).Name() != "Message" || namedOf(fa.X.Type()) != "verifyError" {
+						continue
+					}
+					nMsg++
+					for _, l := range resolveAll(st.Val) {
+						c, isC := l.(*ssa.Call)
+						if !isC || !c.Call.IsInvoke() || c.Call.Method.Name() != "Error" {
+							whole = false
+						}
+					}
+				}
+			}
+			r.Decide("flow", "M/verify.appendError reports each error as one entry with its whole text", nMsg > 0 && whole, "Message: err.Error()", "an entry's message is a piece of the error text (split on line breaks, trimmed): one unmet expectation with a multi-line message is reported as several errors", ap.Pos())
 		}
 	})
 
@@ -732,4 +756,41 @@ func uniq(s []string) []string {
 		m[x] = true
 	}
 	return keys(m)
+}
+
+// multiErrorAddAlwaysAppends: every call of (*MultiError).Add records its
+// argument: no path from the entry of Add to a return avoids a store of an
+// append result into the error list (no filtering of "duplicates": two
+// children that return the same error value are two failures). Shared by
+// C13.R2 and C12.R6.
+func multiErrorAddAlwaysAppends(r *Report) {
+	add := r.W.Fn("", "MultiError.Add")
+	if add == nil || add.Blocks == nil {
+		r.Undecided("(*M.MultiError).Add", "UNRESOLVED")
+		return
+	}
+	r.Touch(add)
+	g := G(add)
+	isAppendStore := func(i ssa.Instruction) bool {
+		st, ok := i.(*ssa.Store)
+		if !ok {
+			return false
+		}
+		fa, ok := st.Addr.(*ssa.FieldAddr)
+		if !ok || fieldObj(fa).Name() != "errs" {
+			return false
+		}
+		for _, l := range resolveAll(st.Val) {
+			c, isC := l.(*ssa.Call)
+			if !isC {
+				return false
+			}
+			if b, isB := c.Call.Value.(*ssa.Builtin); !isB || b.Name() != "append" {
+				return false
+			}
+		}
+		return true
+	}
+	p := g.PathTo([]ssa.Instruction{g.Entry()}, true, isAppendStore, isReturn)
+	r.Decide("path", "(*M.MultiError).Add records every error it is given", p == nil, "errs = append(errs, ...) lies on every path to the return", "Add can return without appending (a duplicate filter, a nil filter): two children failing with the same error value are reported as one, and a verification query loses failures", add.Pos())
 }
